@@ -126,13 +126,25 @@ func c01AnnexHash(r *core.Run, p *core.Program, rule string) {
 		if c, isC := st.Val.(*ssa.Const); isC && c.Value == nil {
 			return
 		}
-		n++
 		pos := p.Pos(st.Pos())
-		sum, ok := st.Val.(*ssa.Call)
-		if !ok || !sum.Call.IsInvoke() || sum.Call.Method.Name() != "Sum" || an.Expr(sum.Call.Args[0]) != "nil" {
-			r.Fail(rule, key, pos, "the annex hash is not a fresh Sum(nil) of a hasher")
+		// the value may arrive through a merge (no annex: nil)
+		var sum *ssa.Call
+		for _, leaf := range an.PhiLeaves(st.Val) {
+			if c, isC := leaf.(*ssa.Const); isC && c.Value == nil {
+				continue
+			}
+			c, ok := leaf.(*ssa.Call)
+			if !ok || sum != nil || !c.Call.IsInvoke() || c.Call.Method.Name() != "Sum" || an.Expr(c.Call.Args[0]) != "nil" {
+				n++
+				r.Fail(rule, key, pos, "the annex hash is not a fresh Sum(nil) of a hasher")
+				return
+			}
+			sum = c
+		}
+		if sum == nil {
 			return
 		}
+		n++
 		h := sum.Call.Value
 		if hc, ok := c02Strip(h).(*ssa.Call); !ok || an.CallName(hc) != "crypto/sha256.New" {
 			r.Fail(rule, key, pos, "the annex hash is not computed with plain SHA-256")
